@@ -73,8 +73,24 @@ Fixpoint rm_credits (shs : list N) (cap : Z) (cs : list credit) (count : Z) (hot
   end.
 
 (* removableTxForRemoveWallet: EVERY output is unsupported, pays the wallet being removed, or pays
-   nobody the keystore manager knows.  Inputs are not looked at. *)
-Definition removable (st : xstate) (shs : list N) (t : tx) : bool :=
+   nobody the keystore manager knows.  As found, inputs are not looked at; repaired, a transaction
+   one of whose inputs spends an output (looked up on the node's best chain, FetchTxBySha) of
+   another keystore-known wallet is kept. *)
+Definition spends_other (st : xstate) (shs : list N) (n : node) (t : tx) : bool :=
+  negb (t_cb t) &&
+  existsb (fun op => match node_tx n (fst op) with
+                     | Some pt => match nth_error (t_outs pt) (N.to_nat (snd op)) with
+                                  | Some o => match o_class o with
+                                              | CUnsupported => false
+                                              | _ => negb (memN (o_sh o) shs) && is_some (key_owner st (o_sh o))
+                                              end
+                                  | None => false
+                                  end
+                     | None => false
+                     end) (t_ins t).
+
+Definition removable (fx : fixes) (st : xstate) (shs : list N) (n : node) (t : tx) : bool :=
+  negb (f_removable fx && spends_other st shs n t) &&
   forallb (fun o => match o_class o with
                     | CUnsupported => true
                     | _ => memN (o_sh o) shs || negb (is_some (key_owner st (o_sh o)))
@@ -90,22 +106,22 @@ Definition drop_tx (brs : list brec) (h : Z) (t : N) : list brec :=
                 end
               else [br]) brs.
 
-Fixpoint repair (st : xstate) (shs : list N) (lookup : N -> option tx) (brs : list brec) (hot : list (N * Z)) : list brec :=
+Fixpoint repair (fx : fixes) (st : xstate) (shs : list N) (n : node) (lookup : N -> option tx) (brs : list brec) (hot : list (N * Z)) : list brec :=
   match hot with
   | [] => brs
   | (t, h) :: r =>
       let brs' := if listed_at brs h t then
                     match lookup t with
-                    | Some tx0 => if removable st shs tx0 then drop_tx brs h t else brs
+                    | Some tx0 => if removable fx st shs n tx0 then drop_tx brs h t else brs
                     | None => brs
                     end
                   else brs in
-      repair st shs lookup brs' r
+      repair fx st shs n lookup brs' r
   end.
 
 (* RemoveRelevantTx + (when finished) DeleteWalletStatus + DeleteKeystore, one commit.
    [lookup] = FetchTxByFileLoc (the node's block files).  Returns the state and "finished". *)
-Definition remove_round (cap : Z) (lookup : N -> option tx) (st : xstate) (w : N) : xstate * bool :=
+Definition remove_round (fx : fixes) (cap : Z) (n : node) (lookup : N -> option tx) (st : xstate) (w : N) : xstate * bool :=
   match status_of st w with
   | Some WRemoving =>
       if memN w (x_p1 st) then
@@ -114,7 +130,7 @@ Definition remove_round (cap : Z) (lookup : N -> option tx) (st : xstate) (w : N
                                  | [] => (credits (x_w st), [], true)
                                  | _ => rm_credits shs cap (credits (x_w st)) 0 []
                                  end in
-        let brs := repair st shs lookup (x_brecs st) hot in
+        let brs := repair fx st shs n lookup (x_brecs st) hot in
         if fin then
           ({| x_w := {| credits := kept; synced := synced (x_w st) |};
               x_keys := filter (fun e => negb (snd e =? w)%N) (x_keys st);
@@ -170,28 +186,28 @@ Definition with_st (s : xsim) (st : xstate) : xsim :=
   {| xs_node := xs_node s; xs_st := st; xs_all := xs_all s; xs_crashed := xs_crashed s |}.
 
 (* Start(): catch up block by block with the node's chain (the first failure stops the start) *)
-Fixpoint catchup (p : params) (n : node) (st : xstate) (fuel : nat) : xres xstate :=
+Fixpoint catchup (fx : fixes) (p : params) (n : node) (st : xstate) (fuel : nat) : xres xstate :=
   match fuel with
   | O => XOk st
   | S f =>
       match node_at n (fst (tip (x_w st)) + 1) with
       | None => XOk st
       | Some b =>
-          match xprocess p n st b with
-          | XOk st' => catchup p n st' f
+          match xprocess fx p n st b with
+          | XOk st' => catchup fx p n st' f
           | XErr => XErr
           | XPanic => XPanic
           end
       end
   end.
 
-Definition xstep (p : params) (B cap : Z) (s : xsim) (e : xevent) : xsim :=
+Definition xstep (fx : fixes) (p : params) (B cap : Z) (s : xsim) (e : xevent) : xsim :=
   match e with
   | XAttach b => {| xs_node := xs_node s ++ [b]; xs_st := xs_st s; xs_all := xs_all s ++ b_txs b; xs_crashed := xs_crashed s |}
   | XDetach => {| xs_node := removelast (xs_node s); xs_st := xs_st s; xs_all := xs_all s; xs_crashed := xs_crashed s |}
   | XProcess b =>
       if xs_crashed s then s
-      else match xprocess p (xs_node s) (xs_st s) b with
+      else match xprocess fx p (xs_node s) (xs_st s) b with
            | XOk st' => with_st s st'
            | XErr => s
            | XPanic => {| xs_node := xs_node s; xs_st := xs_st s; xs_all := xs_all s; xs_crashed := true |}
@@ -202,12 +218,12 @@ Definition xstep (p : params) (B cap : Z) (s : xsim) (e : xevent) : xsim :=
   | XBatch w => with_st s (fst (import_batch p B (xs_node s) (xs_st s) w))
   | XRemoveReq w pass => with_st s (fst (remove_request (xs_st s) w pass))
   | XPhase1 w => with_st s (remove_phase1 (xs_st s) w)
-  | XRound w => with_st s (fst (remove_round cap (find_tx (xs_all s)) (xs_st s) w))
+  | XRound w => with_st s (fst (remove_round fx cap (xs_node s) (find_tx (xs_all s)) (xs_st s) w))
   | XRestart =>
       let st0 := {| x_w := x_w (xs_st s); x_keys := x_keys (xs_st s); x_pass := x_pass (xs_st s);
                     x_status := x_status (xs_st s); x_brecs := x_brecs (xs_st s); x_balrow := x_balrow (xs_st s);
                     x_ugame := x_ugame (xs_st s); x_dead := []; x_p1 := [] |} in
-      match catchup p (xs_node s) st0 (length (xs_node s)) with
+      match catchup fx p (xs_node s) st0 (length (xs_node s)) with
       | XOk st' => {| xs_node := xs_node s; xs_st := st'; xs_all := xs_all s; xs_crashed := false |}
       | XErr => {| xs_node := xs_node s; xs_st := st0; xs_all := xs_all s; xs_crashed := false |}
       | XPanic => {| xs_node := xs_node s; xs_st := st0; xs_all := xs_all s; xs_crashed := true |}
@@ -217,5 +233,5 @@ Definition xstep (p : params) (B cap : Z) (s : xsim) (e : xevent) : xsim :=
 Definition xinit_sim (n : node) : xsim :=
   {| xs_node := n; xs_st := xinit n; xs_all := flat_map b_txs n; xs_crashed := false |}.
 
-Definition xrun (p : params) (B cap : Z) (n : node) (h : list xevent) : xsim :=
-  fold_left (xstep p B cap) h (xinit_sim n).
+Definition xrun (fx : fixes) (p : params) (B cap : Z) (n : node) (h : list xevent) : xsim :=
+  fold_left (xstep fx p B cap) h (xinit_sim n).
